@@ -19,7 +19,7 @@ macro_rules! ctr_core_case {
             // specification: keystream blocks pos .. pos+NB (+2 for the single-block API, if they exist)
             let mut ks = [0u8; NB * B];
             spec::ctr_ks(c.p(), $spec, &iv, pos as u128, &mut ks);
-            let mut ks2 = [0u8; 2 * B];
+            let mut ks2 = [0u8; 3 * B];
             spec::ctr_ks(c.p(), $spec, &iv, pos as u128 + NB as u128, &mut ks2);
             let l0 = spec::ctr_layout($spec, &iv, B, pos as u128);
             let l3 = spec::ctr_layout($spec, &iv, B, pos as u128 + NB as u128);
@@ -57,7 +57,7 @@ macro_rules! ctr_core_case {
                 j += 1;
             }
             // single-block core API: in place, then buffer-to-buffer into a dirty block, then raw keystream
-            if pos <= <$ct>::MAX - NB as $ct - 3 {
+            if pos <= <$ct>::MAX - NB as $ct - 4 {
                 let one: [u8; B] = kani::any();
                 let mut b1 = one;
                 core.apply_keystream_block_inout(blk_mut::<$bs>(&mut b1).into());
@@ -69,11 +69,18 @@ macro_rules! ctr_core_case {
                     assert!(out[j] == one[j] ^ ks2[B + j], "apply_keystream_block_inout (buffer to buffer) differs");
                     j += 1;
                 }
-                assert!(core.get_block_pos() == pos + NB as $ct + 2);
+                let mut raw = [0u8; B];
+                core.write_keystream_block(blk_mut::<$bs>(&mut raw));
+                let mut j = 0;
+                while j < B {
+                    assert!(raw[j] == ks2[2 * B + j], "write_keystream_block differs");
+                    j += 1;
+                }
+                assert!(core.get_block_pos() == pos + NB as $ct + 3);
             }
             kani::cover!(true);
             kani::cover!(pos == <$ct>::MAX - NB as $ct);
-            kani::cover!(pos <= <$ct>::MAX - NB as $ct - 3);
+            kani::cover!(pos <= <$ct>::MAX - NB as $ct - 4);
         }
     };
 }
@@ -110,7 +117,8 @@ macro_rules! ctr_alias_case {
 
 // ---- quick: one block size per flavour, preferring sizes other than 16 (the repository's own AES
 // vectors already sit at 16) and multi-chunk nonces; harness tier = name prefix, not position in this list
-ctr_core_case!(ctr32be_b8_w2_n3, 64, Ctr32BE, spec::CTR32BE, U8, 8, u32, U2, 3);
+ctr_core_case!(ctr32be_b16_w2_n3, 100, Ctr32BE, spec::CTR32BE, U16, 16, u32, U2, 3); // four 32-bit words: word order matters
+ctr_core_case!(t_ctr32be_b8_w2_n3, 64, Ctr32BE, spec::CTR32BE, U8, 8, u32, U2, 3);
 ctr_core_case!(t_ctr32le_b8_w2_n3, 64, Ctr32LE, spec::CTR32LE, U8, 8, u32, U2, 3);
 ctr_core_case!(t_ctr64be_b16_w2_n3, 64, Ctr64BE, spec::CTR64BE, U16, 16, u64, U2, 3);
 ctr_core_case!(t_ctr64le_b16_w2_n3, 64, Ctr64LE, spec::CTR64LE, U16, 16, u64, U2, 3);
